@@ -187,11 +187,11 @@ def big_message_history(rng):
     return h
 
 
-def overfull_first_fragment(rng):
+def overfull_first_fragment(rng, excess=None):
     """a hand-built first fragment already above 10 MiB (TlsRawRecord.data is not bounded by the parser):
     it is buffered; every later fragment, even an empty one, is refused with TooLarge, state unchanged"""
     h = Hist()
-    first = bytes([rng.choice((1, 11, 20))]) + (0xffffff).to_bytes(3, 'big') + bytes(CAP + rng.choice((0, 1, 5)) - 4)
+    first = bytes([rng.choice((1, 11, 20))]) + (0xffffff).to_bytes(3, 'big') + bytes(CAP + (rng.choice((0, 1, 5)) if excess is None else excess) - 4)
     h.cur, h.buflen = 22, len(first)
     h.emit(step('p', 22, 0x0303, first), 'incomplete ?')
     h.emit(step('p', 22, 0x0303, b''), 'error TooLarge')
@@ -246,7 +246,7 @@ def run(ctx):
     n = 8000 if ctx.thorough else 1200
     hists = [gen_history(rng) for _ in range(n)]
     big = [oversize_history(rng, jump=not ctx.thorough or k > 0) for k in range(3 if ctx.thorough else 1)]
-    big.append(overfull_first_fragment(rng))
+    big += [overfull_first_fragment(rng, x) for x in ((0, 1, 5) if ctx.thorough else (0, 1))]     # exactly at the cap, and above it
     big += [big_message_history(rng) for _ in range(12 if ctx.thorough else 4)]
     hists += big
     lines = ['rp ' + ' '.join(h.steps) for h in hists]
